@@ -500,7 +500,8 @@ def eval_batches(ctx, cases, tag):
         chunks = [terms[j:j + 40] for j in range(0, len(terms), 40)]
         pre = PRELUDE + ''.join('Definition chunk%d := [%s].\n' % (j, ';\n '.join(ch)) for j, ch in enumerate(chunks))
         res = coq_eval_nobuild('%s_%d' % (tag, i), pre, [('f', 'failing (%s)' % ' ++ '.join('chunk%d' % j for j in range(len(chunks))))], timeout=900)
-        return [(batch[k], md, sd) for (k, (md, sd)) in res['f']]
+        un = lambda o: None if o is None else o[1]        # ('Some', (row, (column, impl, ours)))
+        return [(batch[k], un(md), un(sd)) for (k, (md, sd)) in res['f']]
     b = common.build(['Model/SeqBlocksRun.vo'], timeout=900)
     if not b['ok']:
         raise RuntimeError('cannot build Model/SeqBlocksRun.vo: %s' % b['msg'])
